@@ -167,7 +167,13 @@ pub fn describe(scen: &Value, par: &Par, b: &Built, k: usize) -> Value {
         // decode the compression footer directly: [SizesInfo][u32 len] at the end of the (decrypted) layer stream
         let inner = enc_plain(par, b);
         let n = inner.len();
+        if n < 16 {
+            return json!({"ev": "builderror", "scen": k, "detail": "archive not decodable by the independent decoder"});
+        }
         let flen = u32::from_le_bytes(inner[n - 4..].try_into().unwrap()) as usize;
+        if flen + 4 > n {
+            return json!({"ev": "builderror", "scen": k, "detail": "compression footer not decodable"});
+        }
         let foot = &inner[n - 4 - flen..n - 4];
         let cnt = u64::from_le_bytes(foot[..8].try_into().unwrap()) as usize;
         for i in 0..cnt {
@@ -191,23 +197,19 @@ pub fn enc_plain(par: &Par, b: &Built) -> Vec<u8> {
     if !par.stack.enc {
         return body.to_vec();
     }
-    // decrypt with the real key through the real reader stack (enc only)
-    let cfg = {
-        let mut c = archive::reader_config(par);
-        let hdr = mla::ArchiveHeader::from(&mut &b.bytes[..]).expect("header");
-        c.load_persistent(hdr.config).expect("load");
-        c
-    };
-    let (key, nonce) = cfg.get_encrypt_parameters().expect("params");
-    let mut r = mla::layers::encrypt::EncryptionLayerReader::new(
-        Box::new(mla::layers::raw::RawLayerReader::new(Cursor::new(body.to_vec()))),
-        &mla::layers::encrypt::EncryptionReaderConfig::verif_with(key, nonce, false),
-    ).expect("enc reader");
-    use mla::layers::traits::LayerReader;
-    r.initialize().expect("init");
-    let mut out = Vec::new();
-    r.read_to_end(&mut out).expect("decrypt");
-    out
+    // decrypted by the INDEPENDENT implementation of the format (not by the code under test)
+    let h = crate::refcodec::parse_header(&b.bytes).expect("header");
+    let keys = archive::keypairs(par.seed, par.nrecip.max(1));
+    let key = crate::refcodec::unwrap_key(&h, &keys[par.reader % keys.len()].0).expect("unwrap key");
+    let consts: HashMap<&str, u64> = mla::verif::constants().iter().copied().collect();
+    let c = crate::refcodec::Consts { chunk: consts["chunk"] as usize, block: consts["block"] as usize };
+    let mut chunks = vec![];
+    match crate::refcodec::decrypt_stream(body, &key, &h.nonce, &c, &mut chunks) {
+        Ok(p) => p,
+        // an archive the reference cannot decrypt was mis-written by the code under test: the sweep still runs,
+        // the description then carries a plaintext length the repairs cannot match
+        Err(_) => Vec::new(),
+    }
 }
 
 /// Adversarial single-file scenario: after the chunk `bad` the plaintext continues, exactly on the next
@@ -250,6 +252,15 @@ fn apply_fault(b: &Built, encl: usize, fault: &Value) -> Vec<u8> {
     let i = fault["byte"].as_u64().unwrap_or(0) as usize;
     let off = b.header_len + c * (ch + 16) + if fault["region"] == "tag" { dlen + (i % 16) } else { i % dlen.max(1) };
     let mut v = b.bytes.clone();
+    if fault["region"] == "insert" {
+        // a bogus slot of exactly one chunk + tag inserted BEFORE chunk c: everything genuine follows it
+        let at = b.header_len + c * (ch + 16);
+        let bogus = crate::cells::content(c as u64 + 77, 555, ch + 16, crate::cells::Entropy::High);
+        if at <= v.len() {
+            v.splice(at..at, bogus);
+        }
+        return v;
+    }
     if off < v.len() {
         v[off] ^= 1 << (fault["bit"].as_u64().unwrap_or(0) % 8);
     }
@@ -280,6 +291,10 @@ pub fn main(args: &[String]) {
             }
         };
         let mut reset = describe(scen, &par, &b, k);
+        if reset["ev"] == "builderror" {
+            tw.push(&reset);
+            continue;
+        }
         reset["sid"] = scen.get("sid").cloned().unwrap_or(json!(k));
         let modes: Vec<&str> = if par.stack.enc { vec!["auth", "unauth"] } else { vec!["auth"] };
         let stride = scen.get("cut_stride").and_then(Value::as_u64).unwrap_or(1) as usize;
@@ -292,9 +307,15 @@ pub fn main(args: &[String]) {
             let ch = consts["chunk"] as usize;
             let n = if encl == 0 { 1 } else { encl.div_ceil(ch) };
             let sd = par.seed as usize;
-            allfaults = (0..n).flat_map(|c| vec![
-                json!({"chunk": c, "region": "data", "byte": (c * 7 + sd) % ch, "bit": (c + sd) % 8}),
-                json!({"chunk": c, "region": "tag", "byte": (c + sd) % 16, "bit": (c * 3 + sd) % 8})]).collect();
+            allfaults = (0..n).flat_map(|c| {
+                let mut v = vec![
+                    json!({"chunk": c, "region": "data", "byte": (c * 7 + sd) % ch, "bit": (c + sd) % 8}),
+                    json!({"chunk": c, "region": "tag", "byte": (c + sd) % 16, "bit": (c * 3 + sd) % 8})];
+                if c >= 1 {
+                    v.push(json!({"chunk": c, "region": "insert", "byte": 0, "bit": 0}));
+                }
+                v
+            }).collect();
             &allfaults
         } else {
             scen.get("faults").and_then(Value::as_array).unwrap_or(&nofault)
@@ -313,7 +334,7 @@ pub fn main(args: &[String]) {
                     let ch = reset["CH"].as_u64().unwrap() as usize;
                     let after = b.header_len + (fault["chunk"].as_u64().unwrap() as usize + 1) * (ch + 16) + 5;
                     cuts = vec![bytes.len()];
-                    if after < bytes.len() {
+                    if after < bytes.len() && fault["region"] != "insert" {
                         cuts.insert(0, after);
                     }
                 }
